@@ -230,7 +230,45 @@ def run_unit(unit, frame=None, pos=None):
         res["responses"] = [r.model_dump(mode="json") for r in run_plan(unit["text"])]
         if frame:
             frame.check(f"run_plan of {unit['id']}", pos)
+        res["api"] = api_observation(unit["job"])
+        # ... and, AFTER the observation, a request for another character of the same job (what the next unit of this
+        # job in the same process must not be able to see)
+        api_noise(unit["job"], unit.get("variant", 0) + 1)
+        if frame:
+            frame.check(f"plan-text API of {unit['id']}", pos)
     return res
+
+
+def api_observation(job):
+    """what the plan-text entry points of simaple.api.base say about the job's shipped example plan (the same
+    text every user of that job starts from): parsed header + commands, has_environment"""
+    from simaple.api.base import has_environment
+    from simaple.api.examples import get_example_plan
+    from simaple.core import JobType
+    from simaple.simulate.policy.parser import parse_simaple_runtime
+    try:
+        text = get_example_plan(JobType(job))
+    except KeyError:
+        return []
+    meta, cmds = parse_simaple_runtime(text.strip())
+    return [{"header": json.loads(json.dumps(meta, default=str))},
+            {"commands": [json.loads(c.model_dump_json()) for c in cmds]},
+            {"has_environment": has_environment(text)}]
+
+
+def api_noise(job, variant):
+    """another user of the same job asking for a plan for ANOTHER character through the API"""
+    from simaple.api.base import get_initial_plan_from_baseline, has_environment
+    from simaple.container.environment_provider import BaselineEnvironmentProvider
+    from simaple.core import JobType
+    try:
+        text = get_initial_plan_from_baseline(BaselineEnvironmentProvider(
+            tier=["Legendary", "Unique", "Epic"][variant % 3], jobtype=JobType(job), level=230 + 10 * variant,
+            artifact_level=10 * variant, passive_skill_level=variant % 2, combat_orders_level=variant % 2,
+            union_block_count=20 + variant, link_count=8 + variant, propensity_level=60 + 10 * variant))
+        has_environment(text)
+    except KeyError:
+        pass
 
 
 def noise(spec, frame=None, pos=None):
@@ -251,6 +289,7 @@ def noise(spec, frame=None, pos=None):
     get_damage_logic(JobType(job), 2)
     get_passive(JobType(job), 1, 1, 260, 700)
     get_builtin_strategy(JobType(job))
+    api_noise(job, variant)
     if frame:
         frame.check(f"noise {job}/{variant}", pos)
 
@@ -295,7 +334,7 @@ def aliased_containers(product) -> int:
     return found[0]
 
 
-PARTS = ["environment", "components", "logs", "responses"]
+PARTS = ["environment", "components", "logs", "responses", "api"]
 
 
 def digests(res) -> dict:
